@@ -75,9 +75,27 @@ static bool in_band(cell& c) {
     return true;
 }
 static std::vector<std::string> g_pass_ops;
+// The geometry of the cell has degenerated: a triangle whose altitude is below 1e-6 of its longest edge (e.g. two nodes placed at the
+// same point by a collapse followed by a split, in a band with l_max < 2 l_min).  The cached normal of such a triangle is undefined,
+// so the operations that orient their results by it (split) are outside the domain of C01 / C11 -- the same restriction as "no triangle
+// inverts between a refresh and the next operation".  Judged from the node positions only; records of the cell stop there.
+static bool g_degenerate = false;
+static bool degenerate(const snapshot& s) {
+    for (size_t f = 0; f < s.tri.size(); f++) if (s.fused[f]) {
+        auto& t = s.tri[f];
+        if (t[0] >= s.pos.size() || t[1] >= s.pos.size() || t[2] >= s.pos.size()) return false;     // broken mesh: let the record show it
+        const vec3 &A = s.pos[t[0]], &B = s.pos[t[1]], &C = s.pos[t[2]];
+        const double ar2 = (B - A).cross(C - A).norm();
+        const double l = std::max((B - A).norm(), std::max((C - B).norm(), (A - C).norm()));
+        if (!(ar2 > 1e-6 * l * l)) return true;
+    }
+    return false;
+}
 
 static void emit(const char* op, cell& c, const snapshot& pre, long a, long b, long f1, long f2, const std::string& threw, double v1, double v2, bool is_pass) {
     snapshot post = take(c);
+    if (g_degenerate) return;
+    if (threw.empty() && degenerate(post)) { g_degenerate = true; return; }
     vj::out j;
     j.obj();
     j.key("op").str(op).key("a").i(a).key("b").i(b).key("f1").i(f1).key("f2").i(f2);
@@ -204,7 +222,7 @@ int main(int argc, char** argv) {
         for (auto& n : cell_tester::nodes(*c)) cell_tester::momentum(n) = vec3(1e-15, -2e-15, 3e-15);
 #endif
         const double lmin = (variant == 0 ? 2. : 5.) * unit, lmax = (variant == 0 ? 5. : 6.) * unit;   // variant 0: longest edges == l_max; variant 1: shortest edges == l_min
-        g_swaps_enabled = sw; g_force_in_band = true;
+        g_swaps_enabled = sw; g_force_in_band = true; g_degenerate = false;
         local_mesh_refiner lmr(lmin, lmax, sw);
         g_lmin2 = lmr.get_l_min_squared(); g_lmax2 = lmr.get_l_max_squared();
         try { lmr.refine_mesh(c); } catch (std::exception&) {}
@@ -220,6 +238,7 @@ int main(int argc, char** argv) {
         shapes::transform(m, 1e-5, 1e-4 * (U(rng) - 0.5), 1e-4 * (U(rng) - 0.5), 1e-4 * (U(rng) - 0.5));
         cell_ptr c = make_cell(m);
         cellno++;
+        g_degenerate = false;
 #if DYNAMIC_MODEL_INDEX == 0
         for (auto& n : cell_tester::nodes(*c)) cell_tester::momentum(n) = vec3(1e-15 * (U(rng) - 0.5), 1e-15 * (U(rng) - 0.5), 1e-15 * (U(rng) - 0.5));
 #endif
@@ -259,6 +278,7 @@ int main(int argc, char** argv) {
                 try { c->rebase(); } catch (std::exception& ex) { threw = ex.what(); }
                 emit("rebase", *c, pre, -1, -1, -1, -1, threw, 0, 0, false);
             }
+            if (g_degenerate) break;          // next cell
             if (c->get_nb_of_faces() < 4 || c->get_nb_of_nodes() > max_nodes) break;
         }
     }
